@@ -229,11 +229,22 @@ def case_2ax(W, cfg):
         a = W.data("a", shape)
         da = xr.DataArray(a, dims=order)
         for op in OPS:
-            for variant in ("default", "percall"):
+            for variant in ("default", "percall", "partial-x", "partial-y"):
                 if variant == "default":
                     kw = {}
                     rule = {"X": grule, "Y": grule}
                     fill = {"X": gfill, "Y": gfill}
+                elif variant == "partial-x":
+                    # per-call mappings that name only some axes: the others keep the grid's rule and fill value
+                    fy = W.scalar("fy")
+                    kw = dict(boundary={"X": "extend"}, fill_value={"Y": fy})
+                    rule = {"X": "extend", "Y": grule}
+                    fill = {"X": gfill, "Y": fy}
+                elif variant == "partial-y":
+                    fy = W.scalar("fy")
+                    kw = dict(boundary={"Y": "fill"}, fill_value={"Y": fy})
+                    rule = {"X": grule, "Y": "fill"}
+                    fill = {"X": gfill, "Y": fy}
                 else:
                     fx = W.scalar("fx")
                     kw = dict(boundary={"X": "fill", "Y": "extend"}, fill_value={"X": fx})
